@@ -38,6 +38,22 @@ def uniq_terms(terms):
     return out
 
 
+# KF-C02-1 is the library returning the left operand of `M * M` when both operands are the same model of >= 2
+# terms.  With this switch on, the reference reproduces exactly that deviation (and nothing else), which is how the
+# known-finding predicate of C02 tells the recorded deviation from any other wrong expansion of such a formula.
+SELF_PRODUCT_SHORTCUT = False
+
+
+class self_product_shortcut:
+    def __enter__(self):
+        global SELF_PRODUCT_SHORTCUT
+        SELF_PRODUCT_SHORTCUT = True
+
+    def __exit__(self, *exc):
+        global SELF_PRODUCT_SHORTCUT
+        SELF_PRODUCT_SHORTCUT = False
+
+
 def ev(t):
     """Expansion of a pipe-free, literal-free tree: ordered duplicate-free list of terms."""
     k = t[0]
@@ -53,6 +69,8 @@ def ev(t):
         return uniq_terms([tjoin(x, y) for x in a for y in b])
     if k == "*":
         a, b = ev(t[1]), ev(t[2])
+        if SELF_PRODUCT_SHORTCUT and len(a) >= 2 and set(a) == set(b):
+            return a
         return uniq_terms(a + b + [tjoin(x, y) for x in a for y in b])
     if k == "/":
         a, b = ev(t[1]), ev(t[2])
@@ -150,6 +168,8 @@ def ev_ordered(t):
     if k == ":":
         return u([tjoin(x, y) for x in a for y in b])
     if k == "*":
+        if SELF_PRODUCT_SHORTCUT and len(a) >= 2 and set(a) == set(b):
+            return a
         return u(a + b + [tjoin(x, y) for x in a for y in b])
     if k == "/":
         allf = tuple(u([f for x in a for f in x]))
